@@ -130,6 +130,7 @@ def execute(sc):
     d = tempfile.mkdtemp(prefix='vlock-')
     path = os.path.join(d, 'the.lock')
     cfg = sc['cfg']
+    _POLL[0] = cfg['poll'] / 1000.0 if cfg.get('poll', 50) != 50 else None
     objs = {}
     for i, re_ in enumerate(cfg['reentrant']):
         dt = cfg['deftimeout'][i]
@@ -182,10 +183,15 @@ def execute(sc):
             pass
 
 
+_POLL = [None]      # explicit poll_interval (seconds) passed to acquire() / acquire_ctx(), or None for the default
+
+
 def _kwargs(blocking, timeout_ms):
     kw = {'blocking': bool(blocking)}
     if timeout_ms != -2:
         kw['timeout'] = timeout_ms / 1000.0 if timeout_ms >= 0 else -1
+    if _POLL[0] is not None:
+        kw['poll_interval'] = _POLL[0]
     return kw
 
 
